@@ -19,11 +19,15 @@ def fmt(ts, rec):
   return "[%s] [%s] e->%s() %s->%s" % (ts.strftime("%Y-%m-%d %H:%M:%S.%f"), rec[0], rec[1], rec[2], rec[3])
 
 
-def render(recs, stamps, pads, blanks):
-  """A trace text in the shape miros' trace() returns: leading newline, one line per record."""
+def render(recs, stamps, pads, blanks, plain=()):
+  """A trace text in the shape miros' trace() returns: leading newline, one line per record.
+  `plain`: (position, text) lines WITHOUT a timestamp (spy lines) placed before that record."""
   out = "\n"
   for k, rec in enumerate(recs):
     out += "\n" * blanks[k % len(blanks)]
+    for pos, text in plain:
+      if pos % len(recs) == k:
+        out += pads[(2 * k) % len(pads)] + text + "\n"
     out += pads[(2 * k) % len(pads)] + fmt(stamps[k % len(stamps)], rec) + pads[(2 * k + 1) % len(pads)] + "\n"
   return out
 
@@ -36,7 +40,10 @@ def reference(text):
     line = line.strip(" \t")
     if not line:
       continue
-    out.append(line[line.index("] ") + 2:])
+    if line[0] == "[" and line[1:5].isdigit() and "] " in line:
+      out.append(line[line.index("] ") + 2:])
+    else:
+      out.append(line)          # a line that does not start with a timestamp (a spy line) is kept
   return out
 
 
@@ -53,7 +60,11 @@ def trace_case(draw):
           "pads_b": draw(st.lists(pad, min_size=1, max_size=4)),
           "blanks_b": draw(st.lists(st.integers(0, 2), min_size=1, max_size=3)),
           "at": draw(st.integers(0, n - 1)), "field": draw(st.integers(0, 3)),
-          "new": draw(ident)}
+          "new": draw(ident),
+          # lines without a timestamp, as spy() prints them; the same in both texts
+          "plain": draw(st.lists(st.tuples(st.integers(0, 5), st.sampled_from(
+            ["ENTRY_SIGNAL:vs1", "VA:vs0:HOOK", "<- Queued:(0) Deferred:(0)", "START", "POST_FIFO:VB",
+             "SEARCH_FOR_SUPER_SIGNAL:a_b", "note [1] x"])), max_size=2).map(lambda l: [list(x) for x in l]))}
   return case
 
 
@@ -64,7 +75,7 @@ class C32(Prop):
   rule = ("Hypothesis-generated traces in the exact layout miros' trace() produces ('[timestamp] "
           "[chart name] e->SIGNAL() from->to', leading newline, one line per record): 1-6 records "
           "with arbitrary chart names and signal names (any Unicode without line-boundary "
-          "characters), identifier state names and arbitrary valid timestamps. Every case also drives a real two-state "
+          "characters), identifier state names and arbitrary valid timestamps, optionally with lines that carry no timestamp (spy lines) in between. Every case also drives a real two-state "
           "chart (generated chart name and signal names, its clock returning the generated "
           "timestamps, some of them on a whole second) and strips what its trace() returns. "
           "Metamorphic oracle: "
@@ -150,7 +161,8 @@ class C32(Prop):
     from miros.hsm import stripped
     iso = datetime.datetime.fromisoformat
     recs = [tuple(r) for r in case["recs"]]
-    a = render(recs, [iso(s) for s in case["stamps_a"]], [""], [0])
+    plain = [tuple(x) for x in case.get("plain") or ()]
+    a = render(recs, [iso(s) for s in case["stamps_a"]], [""], [0], plain)
     mode, at = case["mode"], case["at"] % len(recs)
     recs_b = list(recs)
     expect_equal = True
@@ -171,7 +183,7 @@ class C32(Prop):
     elif mode == "duplicate":
       recs_b.insert(at, recs_b[at])
       expect_equal = False
-    b = render(recs_b, [iso(s) for s in case["stamps_b"]], case["pads_b"], case["blanks_b"])
+    b = render(recs_b, [iso(s) for s in case["stamps_b"]], case["pads_b"], case["blanks_b"], plain)
     stats.case(case, len(recs) >= 2, ["mode_" + mode, "expect_equal" if expect_equal else "expect_unequal"])
     try:
       with stripped(a) as sa, stripped(b) as sb:
